@@ -1,7 +1,13 @@
 package c19
 
 import (
+	"fmt"
+	"os"
+	"sync"
 	"testing"
+
+	"pipelined.dev/signal"
+	"verif/harness/convtab"
 
 	"verif/harness/kit"
 )
@@ -58,4 +64,74 @@ func kitMax(a, b int) int {
 		return a
 	}
 	return b
+}
+
+// TestFirstUse runs in a process of its own (one per element type, see the
+// driver's "extra" jobs): the very first library calls of the process that read
+// the shared buffer come from several goroutines at once. Anything the library
+// initialises lazily on first use (tables, caches) is then initialised under
+// concurrency, which the sequential reference run of the other tests would
+// otherwise always pre-empt.
+func TestFirstUse(t *testing.T) {
+	tn := os.Getenv("VERIF_FIRST_TYPE")
+	if tn == "" {
+		t.Skip("no VERIF_FIRST_TYPE")
+	}
+	env := kit.GetEnv(Property)
+	rec := kit.NewRecorder(env, "firstuse-"+tn)
+	defer func() { rec.Flush(!t.Failed()) }()
+	const C, F, G = 2, 64, 8
+	shared := kit.AllocAny(tn, signal.Allocator{Channels: C, Length: F, Capacity: F})
+	for i := 0; i < shared.Len(); i++ {
+		shared.Set(i, kit.IV(int64(1+i%100)))
+	}
+	var partners []string
+	for _, e := range convtab.Entries {
+		if e.S.Name == tn {
+			partners = append(partners, e.D.Name)
+		}
+	}
+	c := &Case{T: tn, C: C, F: F, RO: F, Bounds: []int{F}, Procs: 16, Repeat: 1}
+	results := make([][]string, G)
+	start := make(chan struct{})
+	var wg sync.WaitGroup
+	for g := 0; g < G; g++ {
+		wg.Add(1)
+		go func(g int) {
+			defer wg.Done()
+			<-start
+			// conversions into private destinations of several types first, then every other read-only entry point
+			for k := 0; k < 3; k++ {
+				p := partners[(g+k*5)%len(partners)]
+				dst := kit.AllocAny(p, signal.Allocator{Channels: C, Length: F, Capacity: F})
+				n := convtab.Lookup(tn, p).Convert(shared, dst)
+				results[g] = append(results[g], fmt.Sprint(p, n, dst.Snap()))
+			}
+			for code := 0; code < nReadOps; code++ {
+				results[g] = append(results[g], readStep(c, shared, code, 0, code))
+			}
+		}(g)
+	}
+	close(start)
+	wg.Wait()
+	// sequential reference afterwards
+	for g := 0; g < G; g++ {
+		var want []string
+		for k := 0; k < 3; k++ {
+			p := partners[(g+k*5)%len(partners)]
+			dst := kit.AllocAny(p, signal.Allocator{Channels: C, Length: F, Capacity: F})
+			n := convtab.Lookup(tn, p).Convert(shared, dst)
+			want = append(want, fmt.Sprint(p, n, dst.Snap()))
+		}
+		for code := 0; code < nReadOps; code++ {
+			want = append(want, readStep(c, shared, code, 0, code))
+		}
+		for i := range want {
+			if results[g][i] != want[i] {
+				kit.Fail(t, env, "firstuse", c, fmt.Sprintf("first concurrent use of a %s buffer: goroutine %d step %d saw %.80s, sequentially %.80s", tn, g, i, results[g][i], want[i]))
+			}
+		}
+	}
+	rec.Bulk("firstConcurrentUse:"+tn, int64(G*(3+nReadOps)), int64(G*(3+nReadOps)))
+	rec.Sample(map[string]any{"type": tn, "goroutines": G, "what": "first library calls of a fresh process: 3 conversions into private destinations and every read-only entry point, from 8 goroutines at once"})
 }
